@@ -24,12 +24,12 @@ Steps(l) == SelectSeq(l, LAMBDA x : x.ev = "step")
 Dumps(l) == SelectSeq(l, LAMBDA x : x.ev = "dump")
 Calls(l) == SelectSeq(l, LAMBDA x : x.ev \in {"pre", "step", "post"})
 NSteps(l) == Len(Steps(l))
-\* time after k steps
-TimeAfter(l, k) == IF k = 0 THEN 0 ELSE Steps(l)[k].t + Steps(l)[k].dt
-FinalT(l) == TimeAfter(l, NSteps(l))
-FirstStepDt(l) == IF NSteps(l) = 0 THEN 0 ELSE Steps(l)[1].dt
+FinalT(l) == LET S == Steps(l) IN IF S = <<>> THEN 0 ELSE S[Len(S)].t + S[Len(S)].dt
+FirstStepDt(l) == LET S == Steps(l) IN IF S = <<>> THEN 0 ELSE S[1].dt
 Inner(I, e) == {r \in I.outs : r > e /\ r < I.tf - e}
 
+\* (every clause binds Steps / Dumps once: the logs of long runs have
+\* thousands of events)
 \* solve() terminates with t = tf (unless max_steps stopped it first)
 P_Terminates(l, I, e) ==
     /\ l # <<>>
@@ -40,15 +40,17 @@ P_Terminates(l, I, e) ==
 
 \* time increases strictly
 P_Monotone(l, I, e) ==
-    \A k \in 1..NSteps(l) : Steps(l)[k].pos /\ Steps(l)[k].dt >= 0
+    LET S == Steps(l) IN \A k \in DOMAIN S : S[k].pos /\ S[k].dt >= 0
 
 \* no step exceeds the current (damped, adaptive or fixed) step size
 P_StepBounded(l, I, e) ==
-    \A k \in 1..NSteps(l) : Steps(l)[k].dt <= Steps(l)[k].lim + e
+    LET S == Steps(l) IN \A k \in DOMAIN S : S[k].dt <= S[k].lim + e
 
 \* the steps tile [0, final t]
 P_Contiguous(l, I, e) ==
-    \A k \in 1..NSteps(l) : Near(Steps(l)[k].t, TimeAfter(l, k - 1), e)
+    LET S == Steps(l)
+    IN \A k \in DOMAIN S :
+         Near(S[k].t, IF k = 1 THEN 0 ELSE S[k - 1].t + S[k - 1].dt, e)
 
 P_DumpStart(l, I, e) ==
     /\ l # <<>> /\ l[1].ev = "dump" /\ l[1].t = 0 /\ l[1].count = 0
@@ -60,37 +62,41 @@ P_DumpEnd(l, I, e) ==
 
 \* output at every pfreq-th iteration
 P_DumpPfreq(l, I, e) ==
-    \A k \in 0..NSteps(l) :
+    LET S == Steps(l)
+        D == Dumps(l)
+        after(k) == IF k = 0 THEN 0 ELSE S[k].t + S[k].dt
+    IN \A k \in 0..Len(S) :
         k % I.pfreq = 0 =>
-            \E i \in 1..Len(Dumps(l)) :
-                /\ Dumps(l)[i].count = k
-                /\ Near(Dumps(l)[i].t, TimeAfter(l, k), e)
+            \E i \in DOMAIN D : D[i].count = k /\ Near(D[i].t, after(k), e)
 
 \* never past a requested time inside (0, tf)
 P_NeverPast(l, I, e) ==
-    \A k \in 1..NSteps(l) : \A r \in Inner(I, e) :
-        ~ (Steps(l)[k].t + e < r /\ r + e < Steps(l)[k].t + Steps(l)[k].dt)
+    LET S == Steps(l)
+        R == Inner(I, e)
+    IN \A k \in DOMAIN S : \A r \in R :
+        ~ (S[k].t + e < r /\ r + e < S[k].t + S[k].dt)
 
 \* output at every requested time inside (0, tf) that the run reached
 P_DumpAtTimes(l, I, e) ==
-    \A r \in Inner(I, e) :
-        r <= FinalT(l) + e =>
-            \E i \in 1..Len(Dumps(l)) : Near(Dumps(l)[i].t, r, e)
+    LET D == Dumps(l)
+        ft == FinalT(l)
+    IN \A r \in Inner(I, e) :
+        r <= ft + e => \E i \in DOMAIN D : Near(D[i].t, r, e)
 
 \* the recorded step size is the nominal one.  Dumps made once the step in
 \* force reaches tf are not constrained: landing on tf overwrites the
 \* solver's only copy of the nominal step (the statement speaks of steps
 \* shortened to land on an *output time*).
 P_RecordedDt(l, I, e) ==
-    \A i \in 1..Len(Dumps(l)) :
-        LET d == Dumps(l)[i]
-        IN (d.t + d.lim < I.tf - e) => Near(d.dt, d.nom, e)
+    LET D == Dumps(l)
+    IN \A i \in DOMAIN D : (D[i].t + D[i].lim < I.tf - e) => Near(D[i].dt, D[i].nom, e)
 
 \* pre-step callback, step, post-step callback: once each per step, in order
 P_Callbacks(l, I, e) ==
     LET c == Calls(l)
-    IN /\ Len(c) = 3 * NSteps(l)
-       /\ \A k \in 1..NSteps(l) :
+        n == NSteps(l)
+    IN /\ Len(c) = 3 * n
+       /\ \A k \in 1..n :
             /\ c[3 * k - 2].ev = "pre"  /\ c[3 * k - 2].count = k - 1
             /\ c[3 * k - 1].ev = "step" /\ c[3 * k - 1].count = k - 1
             /\ c[3 * k].ev = "post"     /\ c[3 * k].count = k - 1
